@@ -99,6 +99,7 @@ partial def parseXP (j : Json) : Option XP := do
   match t with
   | "skip" => pure .skip
   | "raise" => pure .raise
+  | "raiseBase" => pure .raiseBase
   | "set" => do let b ← (j.getObjValAs? Bool "b").toOption; pure (.set b)
   | "seq" => do
     let a ← (j.getObjVal? "a").toOption
@@ -147,11 +148,70 @@ def stepPromote (j : Json) : Option String := do
   let b ← parseKind (← (j.getObjValAs? String "b").toOption)
   pure s!"{canCastSafe a b} {showKind (resultKind a b)}"
 
+def showExit : Exit → String
+  | .normal => "normal"
+  | .exc => "exc"
+  | .base => "base"
+
+/-- optional "inject": n  → a BaseException arrives right before the n-th atomic step of the program -/
 def stepX64 (j : Json) : Option String := do
   let f ← (j.getObjValAs? Bool "flag").toOption
   let p ← parseXP (← (j.getObjVal? "prog").toOption)
-  let r := xrun p f
-  pure s!"{r.1} {r.2}"
+  let p' := match (j.getObjValAs? Nat "inject").toOption with
+    | some n => (injectAt .raiseBase p (some n)).1
+    | none => p
+  let r := xrun p' f
+  pure s!"{r.1} {showExit r.2}"
+
+def showEl (x : El) : String := s!"{showSc x.re},{showSc x.im}"
+
+def showTn (t : Tn) : String :=
+  let dims := ".".intercalate (t.shape.map toString)
+  let vals := ";".intercalate (t.vals.map showEl)
+  s!"{showKind t.kind}:{dims}:{vals}"
+
+def parseMeta (j : Json) : Option InMeta := do
+  let n ← (j.getObjValAs? String "name").toOption
+  let k := match (j.getObjValAs? String "k").toOption with
+    | some s => parseKind s
+    | none => none
+  pure ⟨n, k⟩
+
+def parseParam (j : Json) : Option (String × Tn) := do
+  let n ← (j.getObjValAs? String "name").toOption
+  let t ← parseTn (← (j.getObjVal? "t").toOption)
+  pure (n, t)
+
+def showFeedErr : FeedErr → String
+  | .tooFew n => s!"tooFew:{n}"
+  | .tooMany => "tooMany"
+  | .undefinedCast n => s!"undefinedCast:{n}"
+  | .complexPack n => s!"complexPack:{n}"
+
+/-- {"op":"feed","metas":[{"name":..,"k":..}],"xs":[T..],"params":[{"name":..,"t":T}..],"rtol","atol"}
+    -> "ok <name>=<kind>:<dims>:<vals> ... | <verdict> <agrees|disagrees> <same|coerced>"
+       (verdict of comparing what fn receives, in graph-input order, with the feeds = an identity model)
+    or "error <why>" -/
+def stepFeed (j : Json) : Option String := do
+  let rtol ← parseRat (← (j.getObjValAs? String "rtol").toOption)
+  let atol ← parseRat (← (j.getObjValAs? String "atol").toOption)
+  let ms ← optAll parseMeta (← (← (j.getObjVal? "metas").toOption).getArr?.toOption).toList
+  let xs ← optAll parseTn (← (← (j.getObjVal? "xs").toOption).getArr?.toOption).toList
+  let ps ← optAll parseParam (← (← (j.getObjVal? "params").toOption).getArr?.toOption).toList
+  match bindFeeds ms xs ps with
+  | .error e => pure s!"error {showFeedErr e}"
+  | .ok fd =>
+    let shown := " ".intercalate (fd.map fun p => s!"{p.1}={showTn p.2}")
+    let cfg : Cfg := ⟨rtol, atol, []⟩
+    match fnArgs ms xs ps with
+    | none => pure s!"ok {shown} | nofnargs"
+    | some fa =>
+      let es := fa.map (·.2)
+      let gs := fd.map (·.2)
+      let v := decideAll cfg es gs
+      let a := if agreesB cfg es gs then "agrees" else "disagrees"
+      let c := if decide (es = gs) then "same" else "coerced"
+      pure s!"ok {shown} | {showVerdict v} {a} {c}"
 
 def step (line : String) : String :=
   match Json.parse line with
@@ -162,6 +222,7 @@ def step (line : String) : String :=
     | some "cast" => (stepCast j).getD "bad-op"
     | some "x64" => (stepX64 j).getD "bad-op"
     | some "promote" => (stepPromote j).getD "bad-op"
+    | some "feed" => (stepFeed j).getD "bad-op"
     | _ => "bad-op"
 
 partial def loop (h : IO.FS.Stream) : IO Unit := do
